@@ -156,6 +156,37 @@ pub struct LogCase {
     /// progress state (written last by the second operand) runs up to n / (n / 2) >= 2
     #[serde(default)]
     pub half_bound: bool,
+    /// after the run, its `Log` is handed to a second run of the same configuration through `init_state`: the second
+    /// run appends its steps to it
+    #[serde(default)]
+    pub carry: bool,
+    /// (a, k): one more rule - trigger `Always` (a even) or `EveryN(1 + a / 2)`, harness value k - is registered LAST,
+    /// by a component that calls `configure_log` from inside a scope before the loop
+    #[serde(default)]
+    pub scoped_rule: Option<(u8, u8)>,
+}
+
+fn scoped_rule_of(c: &LogCase) -> Option<(Trig, Extr)> {
+    c.scoped_rule.map(|(a, k)| (if a % 2 == 0 { Trig::Always } else { Trig::EveryN(1 + a as u32 / 2) }, Extr::H(k % 5)))
+}
+
+/// Registers one rule from inside whatever scope it runs in.
+#[derive(Clone, Serialize)]
+struct AddRule(u8, u8);
+impl Component<RealP> for AddRule {
+    fn execute(&self, _p: &RealP, st: &mut State<RealP>) -> ExecResult<()> {
+        let (t, e) = scoped_rule_of(&LogCase { scoped_rule: Some((self.0, self.1)), ..LogCase::empty() }).unwrap();
+        st.configure_log(|cfg| {
+            cfg.with(build_trigger(&t), extractor_of(&e));
+            Ok(())
+        })
+    }
+}
+
+impl LogCase {
+    fn empty() -> Self {
+        LogCase { rules: vec![], structure: 0, iters: 0, present: [false; 5], evaluations: None, best: None, many: None, pops: (0, 0), half_bound: false, carry: false, scoped_rule: None }
+    }
 }
 
 fn pop_sizes(c: &LogCase) -> (usize, usize) {
@@ -396,7 +427,7 @@ impl Check for LogCheck {
         "C15/log".into()
     }
     fn classes(&self) -> &'static [&'static str] {
-        &[">= 3 steps", "duplicate name among fired rules", "missing source (null entry)", "execution where nothing fires", "rule produces the iteration entry itself", "logger in a scope", "trigger error", "rules registered through with_many", "progress state above 1 while logged"]
+        &[">= 3 steps", "duplicate name among fired rules", "missing source (null entry)", "execution where nothing fires", "rule produces the iteration entry itself", "logger in a scope", "trigger error", "rules registered through with_many", "progress state above 1 while logged", "log carried into a second run", "rule registered from inside a scope"]
     }
     fn oracle(&self, c: &LogCase) -> Outcome {
         let mut cl = 0;
@@ -453,6 +484,10 @@ fn log_oracle(c: &LogCase, cl: &mut u64) -> Result<(), Failure> {
         }
         *cl |= 128;
     }
+    if let Some(r) = scoped_rule_of(c) {
+        grouped.rules.push(r);
+        *cl |= 1024;
+    }
     let c = &grouped;
     let mut m = LogModel { case: c, hv: [None; 5], iterations: 0, progress: 0.0, script_pos: BTreeMap::new(), prev: None, steps: Vec::new() };
     for k in 0..5 {
@@ -496,19 +531,23 @@ fn log_oracle(c: &LogCase, cl: &mut u64) -> Result<(), Failure> {
     if half {
         *cl |= 256;
     }
+    let scoped = c.scoped_rule;
+    let start = || match scoped {
+        Some((a, k)) => Configuration::builder().scope_(|b| b.do_(Box::new(AddRule(a, k)))),
+        None => Configuration::builder(),
+    };
     let cfg: Configuration<RealP> = match c.structure % 5 {
-        0 => Configuration::builder().while_(LessThanN_iterations(n), |b| body_logger(b.do_(Box::new(Bump)))).build(),
-        1 => Configuration::builder().do_(Logger::new()).while_(LessThanN_iterations(n), |b| b.do_(Box::new(Bump))).do_(Logger::new()).build(),
-        2 => Configuration::builder().while_(LessThanN_iterations(n), |b| b.do_(Logger::new()).do_(Box::new(Bump)).do_(Logger::new())).build(),
-        3 => Configuration::builder().while_(LessThanN_iterations(n), |b| b.do_(Box::new(Bump)).if_(EveryN::iterations(2), body_logger)).build(),
-        _ => Configuration::builder().while_(LessThanN_iterations(n), |b| b.do_(Box::new(Bump)).scope_(body_logger)).build(),
+        0 => start().while_(LessThanN_iterations(n), |b| body_logger(b.do_(Box::new(Bump)))).build(),
+        1 => start().do_(Logger::new()).while_(LessThanN_iterations(n), |b| b.do_(Box::new(Bump))).do_(Logger::new()).build(),
+        2 => start().while_(LessThanN_iterations(n), |b| b.do_(Logger::new()).do_(Box::new(Bump)).do_(Logger::new())).build(),
+        3 => start().while_(LessThanN_iterations(n), |b| b.do_(Box::new(Bump)).if_(EveryN::iterations(2), body_logger)).build(),
+        _ => start().while_(LessThanN_iterations(n), |b| b.do_(Box::new(Bump)).scope_(body_logger)).build(),
     };
     let problem = RealP::new(1, -1.0, 1.0, RealKind::Sphere);
     tl_reset(None);
-    let rules = c.rules.clone();
+    let rules: Vec<(Trig, Extr)> = c.rules[..c.rules.len() - scoped.is_some() as usize].to_vec();
     let case = c.clone();
-    let res = catch(|| {
-        cfg.optimize_with(&problem, |state| {
+    let setup = |state: &mut State<RealP>| -> ExecResult<()> {
             if case.present[0] {
                 state.insert(HV0(0));
             }
@@ -567,10 +606,10 @@ fn log_oracle(c: &LogCase, cl: &mut u64) -> Result<(), Failure> {
                 }
                 Ok(())
             })
-        })
-    });
+    };
+    let res = catch(|| cfg.optimize_with(&problem, |state| setup(state)));
     let at = format!("{c:?}");
-    let state = match res {
+    let mut state = match res {
         Ok(Ok(s)) => {
             ensure_that!(expected_ok, "C15 run succeeds although a trigger must fail", "{at}");
             s
@@ -590,11 +629,14 @@ fn log_oracle(c: &LogCase, cl: &mut u64) -> Result<(), Failure> {
     };
     let mj: Vec<Vec<(String, V)>> = m.steps.iter().map(|s| s.iter().map(|(n, v)| (n.clone(), jsonify(v))).collect()).collect();
     let log = state.log();
-    let direct = serde_json::to_value(&*log).map_err(|e| Failure::new("C15 log not serialisable", format!("{at}: {e}")))?;
-    let got: Vec<Vec<(String, V)>> = direct
-        .as_array()
-        .map(|steps| steps.iter().map(|s| s.as_array().map(|es| es.iter().map(|e| (e["name"].as_str().unwrap_or("?").to_string(), json_v(&e["value"]))).collect()).unwrap_or_default()).collect())
-        .unwrap_or_default();
+    let read_log = |log: &mahf::logging::Log| -> Result<Vec<Vec<(String, V)>>, Failure> {
+        let direct = serde_json::to_value(log).map_err(|e| Failure::new("C15 log not serialisable", format!("{at}: {e}")))?;
+        Ok(direct
+            .as_array()
+            .map(|steps| steps.iter().map(|s| s.as_array().map(|es| es.iter().map(|e| (e["name"].as_str().unwrap_or("?").to_string(), json_v(&e["value"]))).collect()).unwrap_or_default()).collect())
+            .unwrap_or_default())
+    };
+    let got = read_log(&log)?;
     if got.len() != mj.len() || got.iter().zip(&mj).any(|(a, b)| a.len() != b.len() || a.iter().zip(b).any(|(x, y)| x.0 != y.0 || !same(&x.1, &y.1))) {
         let k = got.iter().zip(&mj).position(|(a, b)| a.len() != b.len() || a.iter().zip(b).any(|(x, y)| x.0 != y.0 || !same(&x.1, &y.1))).unwrap_or(got.len().min(mj.len()));
         let sig = if got.len() > mj.len() && got.iter().any(|s| s.is_empty() || s.iter().all(|e| e.0 == IT_NAME)) {
@@ -658,6 +700,32 @@ fn log_oracle(c: &LogCase, cl: &mut u64) -> Result<(), Failure> {
     ensure_that!(maps_equal(&csteps, &expected_maps), "C15 CBOR export does not decode to the recorded steps", "{at}: decoded {csteps:?}, expected {expected_maps:?} (name table {cnames:?})");
     let _ = std::fs::remove_file(&jpath);
     let _ = std::fs::remove_file(&cpath);
+    drop(log);
+    // (iv) a log handed to the next run through `init_state` is continued, not replaced
+    if c.carry {
+        *cl |= 512;
+        let carried: mahf::logging::Log = state.take::<mahf::logging::Log>();
+        drop(state);
+        tl_reset(None);
+        let mut carried = Some(carried);
+        let res = catch(|| {
+            cfg.optimize_with(&problem, |state| {
+                setup(state)?;
+                state.insert(carried.take().unwrap());
+                Ok(())
+            })
+        });
+        let state2 = match res {
+            Ok(Ok(s)) => s,
+            Ok(Err(e)) => fail!("C15 logging run fails", "{at}: second run with the carried log: {e:#}"),
+            Err(p) => fail!("C15 logging run panics", "{at}: second run with the carried log: {p}"),
+        };
+        let got2 = read_log(&state2.log())?;
+        let twice: Vec<Vec<(String, V)>> = mj.iter().chain(mj.iter()).cloned().collect();
+        if got2.len() != twice.len() || got2.iter().zip(&twice).any(|(a, b)| a.len() != b.len() || a.iter().zip(b).any(|(x, y)| x.0 != y.0 || !same(&x.1, &y.1))) {
+            fail!("C15 a log handed to the next run is not continued", "{at}: the second run leaves {} steps, expected the {} of the first run followed by the same {} again; got {:?}", got2.len(), mj.len(), mj.len(), got2);
+        }
+    }
     // did an execution fire nothing?
     let executions = match c.structure % 5 {
         0 | 4 => n,
@@ -720,8 +788,8 @@ fn renumber_scripts(t: &mut Trig, next: &mut u16) {
 
 fn log_strategy() -> impl Strategy<Value = LogCase> {
     let extr = prop_oneof![6 => (0u8..5).prop_map(Extr::H), 2 => Just(Extr::Iterations), 1 => Just(Extr::Evaluations), 1 => Just(Extr::Common), 1 => Just(Extr::BestObjective), 1 => Just(Extr::Missing), 1 => Just(Extr::PopulationSize)];
-    (proptest::collection::vec((trig_strategy(), extr), 0..7), proptest::option::of((0u8..3, 0u8..7)), 0u8..5, 0u32..13, [any::<bool>(), any::<bool>(), any::<bool>(), any::<bool>(), any::<bool>()], proptest::option::of(0u32..100), proptest::option::of(prop_oneof![5 => -5i32..50, 1 => Just(i32::MAX)]), proptest::option::of((any::<u8>(), any::<u8>())))
-        .prop_map(|(mut rules, change, structure, iters, present, evaluations, best, many)| {
+    (proptest::collection::vec((trig_strategy(), extr), 0..7), proptest::option::of((0u8..3, 0u8..7)), 0u8..5, 0u32..13, [any::<bool>(), any::<bool>(), any::<bool>(), any::<bool>(), any::<bool>()], proptest::option::of(0u32..100), proptest::option::of(prop_oneof![5 => -5i32..50, 1 => Just(i32::MAX)]), proptest::option::of((any::<u8>(), any::<u8>())), (any::<bool>(), proptest::option::weighted(0.3, (0u8..6, 0u8..5))))
+        .prop_map(|(mut rules, change, structure, iters, present, evaluations, best, many, (carry, scoped_rule))| {
             // at most one ChangeOf trigger (they share their `Previous` state by value type)
             if let (Some((k, pos)), false) = (change, rules.is_empty()) {
                 let i = pos as usize % rules.len();
@@ -733,7 +801,7 @@ fn log_strategy() -> impl Strategy<Value = LogCase> {
             }
             // the progress value after a zero-iteration loop is 0/0
             let iters = if structure % 5 == 1 { iters.max(1) } else { iters };
-            LogCase { rules, structure, iters, present, evaluations, best, many, pops: (many.map_or(2, |m| m.0), many.map_or(0, |m| m.1)), half_bound: iters % 3 == 2 }
+            LogCase { rules, structure, iters, present, evaluations, best, many, pops: (many.map_or(2, |m| m.0), many.map_or(0, |m| m.1)), half_bound: iters % 3 == 2, carry, scoped_rule }
         })
 }
 
@@ -1208,7 +1276,7 @@ fn tpl_oracle(c: &TplCase, cl: &mut u64) -> Result<(), Failure> {
 }
 
 pub fn run_all(ctx: &mut Ctx, replay: Option<&Path>) {
-    ctx.rule("log: case = (0-6 rules of trigger x extractor, logger placement {loop body, before+after the loop, twice per pass, inside a branch, inside a scope}, 0-12 iterations, which source states exist); triggers: always / never / every-n / scripted / change-of (at most one) / And-Or-Not of those; extractors: five harness lenses (two share a name), the iteration counter, evaluations, with_common, the size of the current population while two populations of different size are on the stack, best objective value (finite, or +inf for an infeasible best individual: null in JSON, inf in CBOR), a lens on a state that is never inserted. A reference model predicts the exact sequence of steps and entries; compared with the in-memory log (order preserving), the JSON export expanded through its name table, and the CBOR export; non-trivial = >= 3 steps with a duplicate name and a missing source. export: generated configuration trees over control flow and a catalogue of 38 shipped components (incl. the Linear / Polynomial mappings over lenses of generic state types: progress of the iteration counter vs. progress of the evaluation counter) / 4 conditions with numeric parameters: RON serialisation succeeds, the recorded serde structure has every component under its struct name with its parameter values and the state types its lenses read in its nesting position, a structural or parameter edit changes the RON text, clone and rebuild give identical text; non-trivial = >= 6 nodes and depth >= 3. templates: all 21 with two parameter draws: to_ron writes the same text as the in-memory serialisation, different parameters / iteration bounds give different text; distinct by case");
+    ctx.rule("log: case = (0-6 rules of trigger x extractor, logger placement {loop body, before+after the loop, twice per pass, inside a branch, inside a scope}, 0-12 iterations, which source states exist, whether one more rule is registered by a component calling configure_log from inside a scope before the loop, whether the finished log is handed to a second run through init_state - which must then hold the steps of both runs); triggers: always / never / every-n / scripted / change-of (at most one) / And-Or-Not of those; extractors: five harness lenses (two share a name), the iteration counter, evaluations, with_common, the size of the current population while two populations of different size are on the stack, best objective value (finite, or +inf for an infeasible best individual: null in JSON, inf in CBOR), a lens on a state that is never inserted. A reference model predicts the exact sequence of steps and entries; compared with the in-memory log (order preserving), the JSON export expanded through its name table, and the CBOR export; non-trivial = >= 3 steps with a duplicate name and a missing source. export: generated configuration trees over control flow and a catalogue of 38 shipped components (incl. the Linear / Polynomial mappings over lenses of generic state types: progress of the iteration counter vs. progress of the evaluation counter) / 4 conditions with numeric parameters: RON serialisation succeeds, the recorded serde structure has every component under its struct name with its parameter values and the state types its lenses read in its nesting position, a structural or parameter edit changes the RON text, clone and rebuild give identical text; non-trivial = >= 6 nodes and depth >= 3. templates: all 21 with two parameter draws: to_ron writes the same text as the in-memory serialisation, different parameters / iteration bounds give different text; distinct by case");
     ctx.assume("loggers are only placed in configurations that contain a loop (the iteration entry needs the counter)");
     ctx.assume("not part of the serialisation by documentation: Debug closures, Scope function pointers, identifier type parameters held in plain PhantomData");
     ctx.assume("at most one change-of trigger per log configuration (their `previous value` state is shared per value type)");
